@@ -101,6 +101,9 @@ def st_case(draw):
     # receiver side: the remote node may have started already, so all responses can reach the controller before the receive
     # instruction has run
     case["early"] = role == "recv" and draw(st.integers(0, 2)) == 0
+    # node numbering (the remote node may well be node 0) and the stack's own purpose ids (socket id + k)
+    case["node_ids"] = draw(st.sampled_from([None, None, {"alice": 5, "bob": 0, "charlie": 2}, {"alice": 1, "bob": 2, "charlie": 0}]))
+    case["purpose_offset"] = draw(st.sampled_from([0, 0, 3]))
     if draw(st.integers(0, 2)) == 0:
         # an earlier, completed request on the same socket and connection (its handles must keep reading its own responses)
         n1 = draw(st.integers(1, 2))
@@ -142,10 +145,12 @@ def check(case) -> Dict[str, Any]:
     role = case["role"]
     sock = EPRSocket(case["remote"], epr_socket_id=case["socket_id"], remote_epr_socket_id=case["remote_socket_id"])
     hw = NVHardwareConfig(5) if case["hardware"] == "nv" else GenericHardwareConfig(5)
-    ctrl, conn = sim.fresh(sim.TraceExecutor, network_stack_cls=net.ScriptedNetworkStack, epr_sockets=[sock], hardware_config=hw, max_qubits=5)
+    node_ids = case.get("node_ids") or {"alice": 0, "bob": 1, "charlie": 2}
+    ctrl, conn = sim.fresh(sim.TraceExecutor, network_stack_cls=net.ScriptedNetworkStack, epr_sockets=[sock], hardware_config=hw, max_qubits=5, node_ids=node_ids)
     stack = ctrl.network_stack
-    node_ids = {"alice": 0, "bob": 1, "charlie": 2}
+    stack.purpose_offset = case.get("purpose_offset", 0)
     remote_id = node_ids[case["remote"]]
+    purpose = case["socket_id"] + stack.purpose_offset
     kw: Dict[str, Any] = {}
     for k, v in case["kw"].items():
         if k == "time_unit":
@@ -166,7 +171,7 @@ def check(case) -> Dict[str, Any]:
         b_tp = "K" if before["api"].endswith("keep") else "M"
         bkw2 = {k: (TimeUnit[v] if k == "time_unit" else v) for k, v in before.get("kw", {}).items()}
         before_result = getattr(sock, before["api"])(number=before["number"], **bkw2)
-        stack.expect(b_role, b_tp, before["number"], [dict(r) for r in before["responses"]], remote_node_id=remote_id, purpose_id=case["socket_id"])
+        stack.expect(b_role, b_tp, before["number"], [dict(r) for r in before["responses"]], remote_node_id=remote_id, purpose_id=purpose)
         if b_tp == "K":
             for q in before_result:
                 q.measure()
@@ -213,7 +218,7 @@ def check(case) -> Dict[str, Any]:
         if r["bell_as_enum"]:
             f["bell_state"] = BellState(r["bell_state"])
         fields.append(f)
-    stack.expect(role, tp, number, fields, remote_node_id=remote_id, purpose_id=case["socket_id"])
+    stack.expect(role, tp, number, fields, remote_node_id=remote_id, purpose_id=purpose)
     if case.get("early") and role == "recv":
         stack.deliver_eagerly()
     try:
@@ -241,7 +246,7 @@ def check(case) -> Dict[str, Any]:
                     raise Failure(f"request-field:{fld}:earlier-request", case, f"{before['api']} issued first: network stack received {fld}={got0!r}, the call asked for {want0!r}")
         rtype = {"create_keep": "K", "create_keep_with_info": "K", "create_measure": "M", "create_rsp": "R", "create_context": "K"}[api]
         want = dict(zip(LinkLayerCreate._fields, LinkLayerCreate.__new__.__defaults__))
-        want.update(remote_node_id=remote_id, purpose_id=case["socket_id"], type=RequestType[rtype], number=number)
+        want.update(remote_node_id=remote_id, purpose_id=purpose, type=RequestType[rtype], number=number)
         mt = kw.get("max_time", 0)
         if mt != 0:
             want["max_time"] = mt
@@ -328,6 +333,8 @@ def check(case) -> Dict[str, Any]:
             ent = q.entanglement_info
             for fld in r._fields:
                 expect_eq("entanglement_info." + fld, getattr(ent, fld), getattr(r, fld), i)
+            if q.remote_entangled_node != case["remote"]:
+                raise Failure("result:remote_entangled_node", case, f"{api}: pair {i}: remote_entangled_node reads {q.remote_entangled_node!r}, the pair is shared with {case['remote']!r} (node {remote_id})")
             if infos is not None:
                 ki = infos[i]
                 expect_eq("EprKeepResult.qubit_id", ki.qubit_id, r.logical_qubit_id, i)
